@@ -14,8 +14,14 @@ MIN_NONTRIVIAL = {'quick': 1000, 'thorough': 10000}
 def run_check(run, tier, seed, shard):
     run.assume('one-hot mux/demux, Select and SelectDefault judged on select vectors in their documented domain; '
                'PriorityEncoder(inc_priority=True) gives priority to the highest index (parameter name, code comment and '
-               'Test_PriorityEncoder agree); constants representable in the input width; Mux2 with 1-bit select')
+               'Test_PriorityEncoder agree); constants representable in the input width; control wires wider than one bit (2, 3, 5 bits) wherever the constructor '
+               'accepts one: Mux2 looks at the LSB only (its documentation), Swap and SelectDefault are judged for control values 0 and 1 '
+               '(documented), other values are outside the documented domain and not judged; BufEnable/Select/OneHotMux/OneHotDemux refuse them')
     combsweep.run_prop(run, 'C08', tier, seed, shard, 500 if tier == 'quick' else 2400)
+
+
+def post_merge(run, tier, seed):
+    combsweep.post_merge(run, 'C08', tier)
 
 
 def replay(run, case):
